@@ -231,6 +231,22 @@ class K1Adapter(CaseAdapter):
                      'C13': ['start-on-weekend', 'eom:month-end-on-weekend', 'out:ValueError', 'kind:bh']}
 
 
+class K2Adapter(CaseAdapter):
+    module_name = 'k2'
+    label = 'K2 (harness/k2.py)'
+    N = dict(quick=40, thorough=1000)
+    SEARCH = dict(quick=60, thorough=600)
+    rule = ('seeded CSV datasets written to a temporary directory (1-3 assets, 1-40 rows, shuffled rows, gaps, missing cells, '
+            'adjusted or raw, assets starting on different dates, optional second lower-priority source) queried at every bar '
+            'boundary -1s/0/+1s, before the first bar, after the last, weekends and for unknown assets; evaluations = datasets; '
+            'each query compares get_bid/get_ask and the handler bid/ask/bid-ask/mid with the model, and the real source with '
+            'its row-sorted and future-rewritten variants; non-trivial = a dataset with at least two rows in a file')
+    assumptions = ['the model is driven with the cell values as pandas.read_csv parsed them (float parsing is pandas\'s)',
+                   'duplicate dates in one file and empty files are out of scope']
+    required_hist = {'C06': ['query:nan', 'query:exact-boundary', 'query:weekend', 'file:unsorted', 'file:missing-cells',
+                             'two-sources', 'adjust', 'raw']}
+
+
 class Composite(object):
     """Several harnesses decide one property: results are concatenated, coverage is summed / nested."""
     parts = ()
@@ -292,4 +308,5 @@ class C04Adapter(Composite):
 PROPS = {p: K3Adapter for p in ('C01', 'C02', 'C03', 'C05', 'C15')}
 PROPS['C04'] = C04Adapter
 PROPS.update({p: K1Adapter for p in ('C12', 'C13')})
+PROPS['C06'] = K2Adapter
 PROPS.update({p: K4Adapter for p in ('C09', 'C10', 'C11', 'C19')})
